@@ -140,6 +140,14 @@ def run(ctx):
                           ['--disable-all', '--let-substitution', '--inline-functions']][(i // 3) % 4]
         j['timeout'] = 120
         jobs.append(j)
+    # rounds that ddmin processes in PARALLEL (more than 2 x jobs subsets): eight lets, each variable used twice, so that every
+    # accepted substitution shares a node; the command accepts three substitutions in all (a budget on the occurrences of f), so
+    # that the coarse subsets fail and one acceptance falls into the parallel round; the next round must still start from a tree
+    lets = ('(set-logic ALL)\n(declare-fun f (Int) Int)\n(declare-fun p (Int Int) Bool)\n' + ''.join(f'(declare-const c{k} Int)\n' for k in range(8))
+            + ''.join(f'(assert (let ((v{k} (f c{k}))) (p v{k} v{k})))\n' for k in range(8)) + '(check-sat)\n')
+    for jn in ((2, 3) if ctx.thorough else (2,)):
+        jobs.append(dict(text=lets, opts=['--strategy', 'ddmin', '-j', str(jn), '--disable-all', '--let-substitution'], cmd=[e2e.TOKPRED, 'le', '15', 'f'], env={}, timeout=120))
+        jobs.append(dict(text=lets, opts=['--strategy', 'hybrid', '-j', str(jn), '--disable-all', '--let-substitution'], cmd=[e2e.TOKPRED, 'le', '15', 'f'], env={}, timeout=120))
     runs = e2e.run_many(jobs)
     rounds = 0
     for j, r in zip(jobs, runs):
